@@ -10,7 +10,7 @@ package netpoll
 // Scenario spec:  kind=flush,ctor=std|fd,calls=<c1.c2…>,k=<kernel script>,ev=<h|->,closers=<n>,f2=<n>
 //
 //	call  = <op><n>[u|t|d|x]   op: W c.Write(p[:n])   F Malloc(n) (if n>0) then Flush()   M WriteBinary(n bytes), no flush
-//	                           V n x Append(a LinkBuffer holding 7 bytes), no flush: n more NODES in the output buffer (what
+//	                           V n x Append(a LinkBuffer holding 7 malloc'ed bytes), no flush: n more NODES in the output buffer (what
 //	                             mux.ShardQueue does with a burst of messages); with more than barriercap (32) non-empty nodes one
 //	                             GetBytes/sendmsg offers only a prefix of the buffer (K line: vecs=32, offered < output length)
 //	                           u no write timeout (default), t SetWriteTimeout(1h), d SetWriteDeadline(now+1h),
@@ -257,8 +257,7 @@ func (r *vsFlRun) flushCall(i int, cl vsCall) (res string) {
 	case 'V':
 		for j := 0; j < cl.n && err == nil; j++ {
 			lb := NewLinkBuffer(16)
-			lb.Malloc(7)
-			lb.Flush()
+			lb.Malloc(7) // pending (not flushed) in lb: Append adds it to the connection's pending bytes, the next Flush submits it
 			err = c.Append(lb)
 		}
 	}
